@@ -23,6 +23,8 @@ type limitInfo struct {
 	posSum   token.Pos
 	posLabel token.Pos
 	detail   string
+	acc      *ssa.Phi   // the loop-carried accumulator of (label length + 1)
+	accUpd   *ssa.BinOp // its update
 }
 
 // nameLimits extracts the accepted maxima of a name-walking function.
@@ -138,9 +140,11 @@ func nameLimits(c *Ctx, fn *ssa.Function, kind string) limitInfo {
 			lo, hi, hasLo, hasHi := intervalFromFact(f, isValue(v))
 			if upd.Op == token.ADD && hasHi {
 				li.maxSum, li.okSum, li.posSum = hi-s0, true, ifi.Pos()
+				li.acc, li.accUpd = acc, upd
 			}
 			if upd.Op == token.SUB && hasLo {
 				li.maxSum, li.okSum, li.posSum = s0-lo, true, ifi.Pos()
+				li.acc, li.accUpd = acc, upd
 			}
 		}
 	})
@@ -250,6 +254,7 @@ func checkC03(c *Ctx, r *Report) {
 			r.check(li.maxLabel == 63, "C03.R1.label-limit", spec.name, c.pos(li.posLabel), "label <= 63", "%s accepts labels of up to %d octets; the length octet has room for 63", spec.name, li.maxLabel)
 		}
 	}
+	c03EarlyExits(c, r)
 	if v, ok := c.constInt("maxDomainNameWireOctets"); !ok || v != 255 {
 		r.fail("C03.R1.total-limit", "maxDomainNameWireOctets", "", "maxDomainNameWireOctets = %d", v)
 	}
@@ -556,4 +561,117 @@ func c03R4(c *Ctx, r *Report) {
 		}
 		r.check(len(ps) == 0, "C03.R4.fqdn-gate", "Fqdn", c.pos(fq.Pos()), "s | s+\".\"", "%s", strings.Join(ps, "; "))
 	}
+}
+
+// naturalLoop returns the blocks of the natural loop(s) headed by h.
+func naturalLoop(h *ssa.BasicBlock) map[*ssa.BasicBlock]bool {
+	in := map[*ssa.BasicBlock]bool{h: true}
+	var stack []*ssa.BasicBlock
+	for _, p := range h.Preds {
+		if h.Dominates(p) && !in[p] {
+			in[p] = true
+			stack = append(stack, p)
+		}
+	}
+	for len(stack) > 0 {
+		b := stack[len(stack)-1]
+		stack = stack[:len(stack)-1]
+		for _, p := range b.Preds {
+			if !in[p] {
+				in[p] = true
+				stack = append(stack, p)
+			}
+		}
+	}
+	return in
+}
+
+// c03EarlyExits: a text-side name walker that leaves its label loop before the end of the name without
+// rejecting it (the compression-pointer exit of packDomainName) has not added the remaining labels to its
+// running length; such an exit must be behind a total-length test that measures the remainder.
+func c03EarlyExits(c *Ctx, r *Report) {
+	r.rule("C03.R1.early-exit", 2, "every accepting way out of the label loop other than its own end-of-name condition is behind a total-length test that measures the unscanned remainder")
+	for _, name := range []string{"IsDomainName", "packDomainName"} {
+		fn := c.ssaFunc(name)
+		if fn == nil {
+			r.cerr("C03.R1.early-exit", name, "function not found")
+			continue
+		}
+		li := nameLimits(c, fn, "text")
+		if li.acc == nil {
+			// reported by C03.R1.total-limit
+			r.ok("C03.R1.early-exit", name, c.pos(fn.Pos()), "no accumulator (see C03.R1.total-limit)")
+			continue
+		}
+		h := li.acc.Block()
+		loop := naturalLoop(h)
+		var problems []string
+		exits, covered := 0, 0
+		for b := range loop {
+			for _, s := range b.Succs {
+				if loop[s] || isFailureBlock(s) {
+					continue
+				}
+				if b == h {
+					continue // the loop's own condition: the whole name was scanned
+				}
+				exits++
+				// tests made on the way out (one branch rejects) belong to the exit
+				for hops := 0; hops < 4; hops++ {
+					if _, isIf := s.Instrs[len(s.Instrs)-1].(*ssa.If); !isIf {
+						break
+					}
+					f0, f1 := isFailureBlock(s.Succs[0]), isFailureBlock(s.Succs[1])
+					if f0 == f1 {
+						break
+					}
+					if f0 {
+						s = s.Succs[1]
+					} else {
+						s = s.Succs[0]
+					}
+				}
+				facts := factsAt(fn, s)
+				ok := false
+				for _, f := range facts {
+					bin, isBin := f.Atom.(*ssa.BinOp)
+					if !isBin {
+						continue
+					}
+					for _, v := range []ssa.Value{bin.X, bin.Y} {
+						if _, isK := constIntOf(v); isK {
+							continue
+						}
+						_, hi, _, hasHi := intervalFromFact(f, isValue(v))
+						if !hasHi || hi < 254 || hi > 255 {
+							continue
+						}
+						sl := sliceOf(v)
+						if !(sl[li.acc] || sl[li.accUpd]) {
+							continue
+						}
+						if anyIn(sl, callsFunc("domainNameLen", "escapedNameLen", "builtin.len")) {
+							ok = true
+						}
+					}
+				}
+				if ok {
+					covered++
+				} else {
+					problems = append(problems, fmt.Sprintf("%s: the label loop is left for %s without rejecting the name and without a total-length test that includes the labels not scanned yet: a name longer than 255 wire octets is accepted on this way out", c.pos(b.Instrs[len(b.Instrs)-1].Pos()), c.pos(firstPos(s))))
+				}
+			}
+		}
+		sort.Strings(problems)
+		r.check(len(problems) == 0, "C03.R1.early-exit", name, c.pos(fn.Pos()), fmt.Sprintf("%d early accepting exit(s), %d covered", exits, covered), "%s", strings.Join(problems, "; "))
+	}
+}
+
+func firstPos(b *ssa.BasicBlock) token.Pos {
+	for _, in := range b.Instrs {
+		if in.Pos().IsValid() {
+			return in.Pos()
+		}
+	}
+	return token.NoPos
 }
